@@ -6,6 +6,7 @@ changed signature makes the unit unbound -> exit 2, never a verdict). Contract p
 are the extern-"C" functions of spec/*.hpp.
 """
 from vfx.core import Unit
+from vfx import native as _native
 
 FX = 'N9fixedmath7fixed_tE'   # mangled fixedmath::fixed_t
 
@@ -34,6 +35,10 @@ def prop(pid, level, explanation, **kw):
     PROPS[pid] = dict(level=level, explanation=explanation, **kw)
     _UNITS.setdefault(pid, [])
     _EXTRAS.setdefault(pid, [])
+
+
+def E(pid, fn, tier='quick'):
+    _EXTRAS[pid].append((fn, tier))
 
 
 def U(pid, *a, **kw):
@@ -267,5 +272,77 @@ U('C17', 'c17.assoc', 'lem_c17_assoc', 'pre_c17_3', None, lemma=True, cxx='lem_c
 U('C17', 'c17.mul_step', 'lem_c17_mul_step', 'pre_c17_n', None, lemma=True, cxx='lem_c17_mul_step($1,$2)', **INTQ)
 U('C17', 'c17.mul_div', 'lem_c17_mul_div', 'pre_c17_n', None, lemma=True, cxx='lem_c17_mul_div($1,$2)', **INTQ)
 U('C17', 'c17.add_mono', 'lem_c17_add_mono', 'pre_c17_3', None, lemma=True, cxx='lem_c17_add_mono($1,$2,$3)')
+
+# ----------------------------------------------------------------------------- C13
+prop('C13', 'other',
+     'Abacus algorithm (constant evaluation / FIXEDMATH_ENABLE_SQRT_ABACUS_ALGO): the while loop of sqrt_abacus is '
+     'closed by a loop contract (invariant over ghost k, R and an opaque square table SQ[], decreases pwr4) and the '
+     'function is verified for every 0 <= x.v < 2^48 against the floor-root postcondition SQ[r] <= N, N - SQ[r] <= 2r '
+     '(N = x.v*2^16), NaN for x < 0; the two facts about SQ used inside the loop are proved for real multiplication '
+     '(ring identity), and exit => r^2 <= N < (r+1)^2, exact on squares and monotonicity are lemmas over arbitrary '
+     'integers. std::sqrt algorithm: UB-freedom (double->int64 in range) is proved under the assumed contract of '
+     'std::sqrt; its accuracy is covered by a bounded native scan (labelled stand-in).',
+     assumptions=['instantiation of the opaque table: the loop proof holds for every SQ[] satisfying the applied lemma '
+                  'instances; SQ[x] := x*x satisfies them (units c13.lem.sq_step, proved), hence the postcondition holds for real squares',
+                  'std::sqrt(double) is correctly rounded (IEEE-754), >= 0 for x >= 0, and NaN only for x < 0 or NaN (assumed contract of the external function)'],
+     technique='CBMC loop contracts (invariant/decreases/assigns, goto-instrument --apply-loop-contracts) with ghost state and lemma functions applied by contract; ring/NIA lemmas by z3/cvc5; native stand-in for the std::sqrt path')
+SQRT_ABACUS = '_ZN9fixedmath6detail11sqrt_abacusENS_7fixed_tE'
+PWR4 = '_ZN9fixedmath6detail16highest_pwr4_clzEm'
+SQ_PRELUDE = """
+extern const unsigned long SQ[];   /* opaque square table: unsized on purpose (see DESIGN 3.3) */
+void vf_lemma_sq_step(unsigned long R, int k)
+__CPROVER_requires(k >= 0 && k <= 31 && R < (1ul << 32))
+__CPROVER_ensures(SQ[R + (1ul << k)] == SQ[R] + (R << (k + 1)) + (1ul << (2 * k)))
+__CPROVER_assigns();
+void vf_lemma_sq_zero(void)
+__CPROVER_ensures(SQ[0] == 0)
+__CPROVER_assigns();
+"""
+SQRT_LOOP = """__CPROVER_assigns(val, pwr4, result, vf_k, vf_R)
+__CPROVER_loop_invariant(-1 <= vf_k && vf_k <= 31 && vf_R < (1ul << 32))
+__CPROVER_loop_invariant(pwr4 == (vf_k >= 0 ? (1ul << (2 * (vf_k >= 0 ? vf_k : 0))) : 0ul))
+__CPROVER_loop_invariant((vf_R & ((1ul << (vf_k + 1)) - 1)) == 0 && result == (vf_R << (vf_k + 1)))
+__CPROVER_loop_invariant(SQ[vf_R] <= vf_N && val + SQ[vf_R] == vf_N)
+__CPROVER_loop_invariant((unsigned __int128)val < ((unsigned __int128)vf_R << (vf_k + 2)) + ((unsigned __int128)1 << (2 * vf_k + 2)))
+__CPROVER_decreases(pwr4)"""
+SQRT_GHOST = {
+    (SQRT_ABACUS, ('loop_before', 1)): 'unsigned long vf_N = val; int vf_k = (pwr4 == 0) ? -1 : (63 - __builtin_clzl(pwr4)) / 2; unsigned long vf_R = 0; vf_lemma_sq_zero();',
+    (SQRT_ABACUS, ('if_then_begin', 2)): 'vf_lemma_sq_step(vf_R, vf_k); vf_R += 1ul << vf_k;',
+    (SQRT_ABACUS, ('loop_body_end', 1)): 'vf_k -= 1;',
+}
+U('C13', 'c13.abacus.loop', SQRT_ABACUS, 'pre_valid1', None, cxx='fixedmath::detail::sqrt_abacus($1)',
+  ensures_extra=['($1.v < 0 || $1.v >= (1l << 48)) ? vf_isnan(__CPROVER_return_value) : '
+                 '(__CPROVER_return_value.v >= 0 && __CPROVER_return_value.v < (1l << 32) && '
+                 'SQ[__CPROVER_return_value.v] <= ((unsigned long)$1.v << 16) && '
+                 '((unsigned long)$1.v << 16) - SQ[__CPROVER_return_value.v] <= 2ul * (unsigned long)__CPROVER_return_value.v)'],
+  prelude=SQ_PRELUDE, needs=['vf_isnan'], loop_contracts={1: SQRT_LOOP}, ghost=SQRT_GHOST, replace_raw=['vf_lemma_sq_step', 'vf_lemma_sq_zero'],
+  backends=('kissat', 'z3'), timeout=600, split=True, expect_props=['loop_invariant_base', 'loop_invariant_step', 'loop_decreases'])
+U('C13', 'c13.pwr4', PWR4, 'pre_anyu', 'post_pwr4', cxx='fixedmath::detail::highest_pwr4_clz($1)')
+U('C13', 'c13.lem.sq_step', 'lem_sq_step', 'pre_sq_step', None, lemma=True, cxx='lem_sq_step($1,$2)', backends=('z3', 'cvc5'), timeout=300)
+U('C13', 'c13.lem.exit', 'lem_sqrt_exit', 'pre_sqrt_exit', None, lemma=True, cxx='lem_sqrt_exit($1,$2)', engine='int', timeout=300)
+U('C13', 'c13.lem.exact_on_squares', 'lem_sqrt_sq', 'pre_sqrt_sq', None, lemma=True, cxx='lem_sqrt_sq($1,$2,$3)', engine='int', timeout=300)
+U('C13', 'c13.lem.monotone', 'lem_sqrt_mono', 'pre_sqrt_mono', None, lemma=True, cxx='lem_sqrt_mono($1,$2,$3,$4)', engine='int', timeout=300)
+SQRT_STD = '_ZN9fixedmath6detail13sqrt_std_mathENS_7fixed_tE'
+VF_SQRT_PRELUDE = """
+double vf_sqrt(double x)
+__CPROVER_ensures((x < 0.0 || x != x) ? (__CPROVER_return_value != __CPROVER_return_value)
+                  : (__CPROVER_return_value >= 0.0 && (__CPROVER_return_value <= 65536.0 || __CPROVER_return_value <= x / 65536.0)))
+__CPROVER_assigns();
+"""
+U('C13', 'c13.std.ub', SQRT_STD, 'pre_valid1', 'post_sqrt_std', cxx='fixedmath::detail::sqrt_std_math($1)',
+  prelude=VF_SQRT_PRELUDE.replace('double vf_sqrt(double x);', ''), replace_raw=['vf_sqrt'], backends=('sat', 'kissat'), timeout=300)
+SQRT = '_ZN9fixedmath4sqrtENS_7fixed_tE'
+K_SQRT_AB = (SQRT_ABACUS, 'pre_valid1', 'post_sqrt')     # floor-root contract in real squares (loop proof + lem.exit)
+K_SQRT_STD = (SQRT_STD, 'pre_valid1', 'post_sqrt_std')
+U('C13', 'c13.sqrt.dispatch.abacus', SQRT, 'pre_valid1', 'post_sqrt', replace=[K_SQRT_AB], cfg='abacus', cxx='fixedmath::sqrt($1)', backends=MULBE)
+U('C13', 'c13.sqrt.dispatch.std', SQRT, 'pre_valid1', 'post_sqrt_std', replace=[K_SQRT_STD], cfg='stdsqrt', cxx='fixedmath::sqrt($1)')
+
+
+def c13_scan(tier, seed):
+    return _native.run_native('c13_sqrt_scan', 'c13_sqrt_scan.cc', 'abacus', [seed, 3000000 if tier == 'quick' else 30000000, 0 if tier == 'quick' else 1],
+                              label='bounded stand-in (not proved): accuracy of the std::sqrt algorithm, cross-check of the abacus contract')
+
+
+E('C13', c13_scan)
 
 NOT_APPLICABLE = {}
